@@ -40,6 +40,22 @@ def _events(args):
         rootseq = Sequence(root, Alphabet[alpha], id="root")
         l = E.make_loc(blocks, st, Parent(id="root", sequence=rootseq), force_compound=rnd.random() < 0.3)
         ev.append(["ext", alpha, list(root), [blocks, st], E.outcome(lambda: list(str(l.extract_sequence())))])
+        if st in "+-" and not _self_overlaps(blocks) and rnd.random() < 0.5:
+            # locations DERIVED from one that has already been read (strand flipped once, twice; single blocks of it):
+            # each reads the parent for itself (layouts whose own blocks overlap re-sort on a flip: the keyed order finding)
+            flip = {"+": "-", "-": "+"}[st]
+            try:
+                l2 = l.reverse_strand()
+                ev.append(["ext", alpha, list(root), [blocks, flip], E.outcome(lambda: list(str(l2.extract_sequence())))])
+                l3 = l2.reverse_strand()
+                ev.append(["ext", alpha, list(root), [blocks, st], E.outcome(lambda: list(str(l3.extract_sequence())))])
+                for blk in l.blocks[:2]:
+                    list(str(blk.extract_sequence()))
+                    b2 = blk.reverse_strand().reverse_strand()
+                    ev.append(["ext", alpha, list(root), [[[blk.start, blk.end]], st],
+                               E.outcome(lambda b2=b2: list(str(b2.extract_sequence())))])
+            except Exception:
+                pass
         if st == "." or nchain == 0:
             continue
         # a Sequence that records its location on the root, then a chain of operations
